@@ -206,6 +206,13 @@ def run_core(prop, tier, seed, t0, cfgname='TraceCore.cfg'):
                     out_lines.append('VIOLATION property=C17 replay=%s' % path); nviol += 1
         xthread_cov = dict(cross_thread_tracer=dict(programs=len(csegs), events=sum(r.get('events', 0) for r in cres),
                                                    rule='concurrent programs whose prelude installs a tracer on the main thread; every accepted call of every worker thread must deliver one record to it (validated in the linearization replay)'))
+    # ---- "a live expectation matches it": the matcher catalogue through real expectations
+    mslice_cov = {}
+    if prop in ('C01', 'C02', 'C07'):
+        ms = match_slice(prop, work)
+        if isinstance(ms, str):
+            print('CHECK-ERROR property=%s matcher slice: %s' % (prop, ms[:1500])); return 2
+        out_lines += ms[0]; nviol += len(ms[0]); mslice_cov = ms[1]
     # ---- C08: "for reference returns, that very object" - the reference-returning members of the C09 family
     refret_cov = {}
     if prop == 'C08':
@@ -259,6 +266,7 @@ def run_core(prop, tier, seed, t0, cfgname='TraceCore.cfg'):
     cov.update(suite_cov)
     cov.update(xthread_cov)
     cov.update(refret_cov)
+    cov.update(mslice_cov)
     if apalache:
         cov['inductive_invariant'] = {k: v for k, v in apalache.items() if k != 'output'}
     if exhaustive_note:
@@ -718,6 +726,45 @@ REGISTRY['C20'] = run_coro
 # ---------------------------------------------------------------- C09: parameter binding and capture
 
 _C09_FIELDS = ['plain_w', 'lr_w', 'addr_w', 'value_w', 'plain_s', 'lr_s', 'addr_s', 'stable_s', 'value_s', 'stable_r', 'retal', 'copies', 'wrote']
+
+def match_slice(prop, work):
+    """C01 / C02 / C07 depend on "matches": the scalar matcher catalogue (quick size; driver shared with C10) is judged here too.
+    Returns (violation lines, coverage dict) or an error string."""
+    import subprocess
+    w = os.path.join(work, 'mslice'); os.makedirs(w, exist_ok=True)
+    try:
+        d = lib.build_match('scalar', 'quick', 1, ())
+    except lib.BuildError as e:
+        return 'matcher catalogue does not build: %s' % str(e)[:1500]
+    raw = os.path.join(w, 'out.ndjson')
+    p = subprocess.run(['timeout', '1800', os.path.join(d, 'drv_match'), raw], stdout=subprocess.PIPE, stderr=subprocess.STDOUT, text=True)
+    cat = {c['id']: c for c in json.load(open(os.path.join(d, 'catalogue.json')))}
+    lines, out = [], []
+    for l in open(raw) if os.path.exists(raw) else []:
+        try:
+            x = json.loads(l)
+        except Exception:
+            continue
+        if 'desc' in x:
+            continue
+        lines.append(json.dumps(dict(id=x['id'], kind='scalar', term=cat[x['id']]['term'], x=x['x'], res=x['res'])))
+    rp = os.path.join(lib.BUILD, 'replay'); os.makedirs(rp, exist_ok=True)
+    if p.returncode != 0:
+        path = os.path.join(rp, '%s-matchers-crash.txt' % prop); open(path, 'w').write('matcher driver crashed rc=%d\n%s\n' % (p.returncode, p.stdout[-2000:]))
+        out.append('VIOLATION property=%s replay=%s' % (prop, path))
+    pth = os.path.join(w, 'n.ndjson'); open(pth, 'w').write('\n'.join(lines) + '\n')
+    r = lib.validate_generic('TraceMatchers.tla', 'TraceMatchers.cfg', pth, w, 'v')
+    if 'error' in r:
+        return r['error']
+    by_id = {}
+    for v in r['viol']:
+        by_id.setdefault(v['id'], []).append(v)
+    for tid, vs in list(by_id.items())[:3]:
+        path = os.path.join(rp, '%s-matcher-term%d.txt' % (prop, tid))
+        open(path, 'w').write('an expectation whose parameter matcher is %s accepts / rejects calls against spec/Matchers.tla (abstract term %s):\n%s\n' % (
+            cat[tid]['cpp'], json.dumps(cat[tid]['term']), '\n'.join(json.dumps(v) for v in vs)))
+        out.append('VIOLATION property=%s replay=%s' % (prop, path))
+    return out, dict(matcher_catalogue=dict(terms=len(cat), verdicts=len(lines), rule='every scalar matcher term of the C10 quick catalogue through a real expectation, judged by Matchers!Acc'))
 
 def c09_observe(d, work):
     """run the built C09 family and judge every case by Binding!Expect; returns (cases, crash_text or None, {case id: [violations]}) or error string"""
